@@ -334,12 +334,21 @@ func phiIncoming(phi *ssa.Phi, pred *ssa.BasicBlock) ssa.Value {
 }
 
 func (f *Frame) loopSpec(li *LoopInfo) *LoopSpec {
+	ls := &LoopSpec{}
 	if f.top && f.e.con != nil {
-		if ls := f.e.con.Loops[li.ordinal]; ls != nil {
-			return ls
+		if x := f.e.con.Loops[li.ordinal]; x != nil {
+			c := *x
+			ls = &c
+		}
+		// requires clauses labelled inv:... are object invariants: they are also
+		// loop invariants of every loop of the function
+		for _, r := range f.e.con.Requires {
+			if strings.HasPrefix(r.Label, "inv:") {
+				ls.Invariants = append(append([]Clause{}, ls.Invariants...), r)
+			}
 		}
 	}
-	return &LoopSpec{}
+	return ls
 }
 
 func (f *Frame) loopTag(li *LoopInfo) string {
@@ -413,12 +422,26 @@ func (f *Frame) enterLoop(li *LoopInfo, preds []*ssa.BasicBlock, conds []string)
 		if framed && f.framedVar(v) {
 			// the loop may change v only where the function's modifies clause allows
 			// (re-checked for the loop body at every back edge: frame.loop)
-			e.assert(f.frameCond(v, e.hget(hdr, v), before, allowed[v]))
+			e.assert(f.frameDef(v, e.hget(hdr, v), before, allowed[v]))
 			li.framed[v] = true
 		}
 	}
 	if allocBefore != "" {
 		e.assert(fmt.Sprintf("(>= %s %s)", e.hget(hdr, "$alloc"), allocBefore))
+	}
+	// non-escaping local cells that the loop never stores to keep their value
+	for fr := f; fr != nil; fr = fr.parent {
+		for i, l := range fr.private {
+			if i >= len(fr.privateAllocs) || loopStoresTo(li, fr.fn, fr.privateAllocs[i]) {
+				continue
+			}
+			for _, hv := range e.heapVarsOfLoc(l) {
+				now, old := e.hget(hdr, hv), e.hget(entryHeap, hv)
+				if now != old {
+					e.assert(fmt.Sprintf("(= (select %s %s) (select %s %s))", now, l.Ptr, old, l.Ptr))
+				}
+			}
+		}
 	}
 	f.heap = hdr
 	li.hdrHeap = hdr.clone()
@@ -500,13 +523,16 @@ func (f *Frame) backEdge(li *LoopInfo, from *ssa.BasicBlock, ec string) {
 			vs = append(vs, v)
 		}
 		sort.Strings(vs)
+		var gn, gc []string
 		for _, v := range vs {
 			now, before := e.hget(f.heap, v), e.hget(li.hdrHeap, v)
 			if now == before {
 				continue
 			}
-			e.addObl("frame.loop", tag+":"+v, ec, f.frameCond(v, now, before, allowed[v]), pos, "loop body writes only what the function's modifies clause allows", f.props())
+			gn = append(gn, tag+":"+v)
+			gc = append(gc, f.frameCond(v, now, before, allowed[v]))
 		}
+		e.addGroup("frame.loop", tag+":all", ec, gn, gc, pos, "loop body writes only what the function's modifies clause allows", f.props())
 	}
 	for i, inv := range li.spec.Invariants {
 		env := f.specEnv(f.heap, li, from)
@@ -822,6 +848,17 @@ func (f *Frame) lookupName(name string, li *LoopInfo, from *ssa.BasicBlock) (spe
 			}
 		}
 	}
+	// an address-taken variable lives in its cell: prefer the cell (current value)
+	// over any earlier loaded copy
+	for _, b := range fn.Blocks {
+		for _, ins := range b.Instrs {
+			if al, ok := ins.(*ssa.Alloc); ok && al.Comment == name && (at == nil || b.Dominates(at)) {
+				if _, done := f.vals[al]; done {
+					best, bestAddr = al, true
+				}
+			}
+		}
+	}
 	if best != nil {
 		if bestAddr {
 			l := f.locOf(best)
@@ -878,4 +915,43 @@ func monotonePhiLowerBound(phi *ssa.Phi) (string, bool) {
 		return fmt.Sprintf("(- %d)", -v), true
 	}
 	return fmt.Sprint(v), true
+}
+
+// loopStoresTo: does any block of the loop (in function fn) store to the local
+// cell al, directly or through a closure that captures it?
+func loopStoresTo(li *LoopInfo, fn *ssa.Function, al *ssa.Alloc) bool {
+	if li.header.Parent() != fn {
+		return true // a loop of another (inlined) function: be conservative only for its own frame's cells
+	}
+	rooted := func(v ssa.Value) bool {
+		for {
+			switch x := v.(type) {
+			case *ssa.Alloc:
+				return x == al
+			case *ssa.FieldAddr:
+				v = x.X
+			case *ssa.IndexAddr:
+				v = x.X
+			default:
+				return false
+			}
+		}
+	}
+	for idx := range li.blocks {
+		for _, ins := range fn.Blocks[idx].Instrs {
+			switch x := ins.(type) {
+			case *ssa.Store:
+				if rooted(x.Addr) {
+					return true
+				}
+			case *ssa.MakeClosure:
+				for _, b := range x.Bindings {
+					if b == ssa.Value(al) {
+						return true
+					}
+				}
+			}
+		}
+	}
+	return false
 }
